@@ -584,77 +584,106 @@ def run(rep):
         ok = len(ent) == 5 and sum(1 for e in ent if e.endswith("(field, cast, insensitive))")) == 1 and sum(1 for e in ent if e.endswith("(field, cast, false))")) == 4
         rep.check(ok, "LOCKSTEP", "LOCKSTEP/shake/case-key", s1.sp, "needles are grouped per (field, cast, case class); plain searches are case-sensitive", str(ent))
 
-    # ---------------------------------------------------------------- LOWERCASE + T-PATTERN
-    idf = F.fn("into_identifier")
-    if idf is None:
-        rep.lost("T-PATTERN", "T-PATTERN/anchor", "into_identifier")
+    # ---------------------------------------------------------------- IDENT-MODEL (decides), LOWERCASE + T-PATTERN (structure, fallback)
+    import core as _core
+    import identmodel
+    rep.describe("IDENT-MODEL", "into_identifier evaluated over %d probe strings agrees with the documented pattern syntax (kind, payload, case flag, ASCII folding, errors)" % len(identmodel.PROBES))
+    irows, iun = identmodel.evaluate(F, False)
+    if irows is None:
+        rep.note("pattern-syntax model not applicable (%s); structural rules decide" % iun)
     else:
-        nlow = 0
-        for n, path in walk_with_path(idf.body):
-            if n.get("k") == "Call" and n.get("fn") and ("to_lowercase" in n["fn"] or "to_ascii_lowercase" in n["fn"] or "to_uppercase" in n["fn"]):
-                nlow += 1
-                ctx = q.context(path, n)
-                under = any(e[0] == "if" and e[2] and show(e[1]) == "insensitive" for e in ctx)
-                rep.check(n["fn"].endswith("to_ascii_lowercase") and under, "LOWERCASE", "LOWERCASE/site#%d" % nlow, n["sp"],
-                          "needle folding is ASCII (the automaton is ascii_case_insensitive) and happens only for insensitive patterns", n["fn"].split("::")[-1] + (" under insensitive" if under else " NOT under insensitive"))
-        rep.check(nlow == 5, "LOWERCASE", "LOWERCASE/count", idf.sp, "five string arms fold the needle (sibling arms alike)", str(nlow))
-        # decision list: order of tests and outcome per test
-        tests = []
-        cur = None
-        for s in idf.body.get("stmts", []):
-            if s["k"] == "Let" and s["pat"].get("name") == "pattern":
-                cur = unblock(s["init"])
-        chain = []
-        while cur is not None and cur.get("k") == "If":
-            chain.append(cur)
-            cur = unblock(cur["else"]) if cur.get("else") else None
-        last_else = cur
-        def test_name(c):
-            c = peel(c)
-            s = str(show(c))
-            m = re.fullmatch(r"let Option::Some\(\$s\) = <impl str>::strip_prefix\(string, (['\"])(.+)\1\)", s)
-            if m:
-                return "prefix:" + m.group(2)
-            m = re.fullmatch(r"let Option::Some\(\$s\) = <impl str>::strip_suffix\(string, (['\"])(.+)\1\)", s)
-            if m:
-                return "suffix:" + m.group(2)
-            if s == 'PartialEq::eq(string, "*")':
-                return "is:*"
-            if s == "(<impl str>::starts_with(string, '*') && <impl str>::ends_with(string, '*'))":
-                return "wrapped:*"
-            if "starts_with(string, '\"')" in s and "ends_with(string, \'\'\')" in s:
-                return "quoted" + (":len>=2" if "(<impl str>::len(string) Ge 2)" in s else ":UNGUARDED")
-            return "?" + s[:50]
-        names = [test_name(c["cond"]) for c in chain]
-        want = ["prefix:?", "prefix:>=", "prefix:>", "prefix:<=", "prefix:<", "prefix:=", "is:*", "wrapped:*", "prefix:*", "suffix:*", "quoted:len>=2"]
-        rep.check(names == want, "T-PATTERN", "T-PATTERN/decision-list", idf.sp, "tests in order: ? >= > <= < = '*' *x* *x x* quoted(len>=2) else exact", str(names))
-        outcome = {"prefix:?": "Regex", "is:*": "Any", "wrapped:*": "Contains", "prefix:*": "EndsWith", "suffix:*": "StartsWith", "quoted:len>=2": "Exact"}
-        for c, nm in zip(chain, names):
-            if nm in outcome:
-                adts = [x["variant"] for x in walk(c["then"]) if x.get("k") == "Adt" and x["adt"] == "identifier::Pattern"]
-                rep.check(adts == [outcome[nm]], "T-PATTERN", "T-PATTERN/outcome/" + nm, c["sp"], "test %s => Pattern::%s" % (nm, outcome[nm]), str(adts))
-        if last_else is not None:
-            adts = [x["variant"] for x in walk(last_else) if x.get("k") == "Adt" and x["adt"] == "identifier::Pattern"]
-            rep.check(adts == ["Exact"], "T-PATTERN", "T-PATTERN/outcome/otherwise", idf.sp, "otherwise => Pattern::Exact(whole text)", str(adts))
-        # payloads: inner slices
-        for c, nm in zip(chain, names):
-            if nm in ("wrapped:*", "quoted:len>=2"):
-                sl = [show(x) for x in walk(c["then"]) if call_is(x, "Index::index")]
-                ok = bool(sl) and all(s == "Index::index(string, Range::Range{start: 1, end: (<impl str>::len(string) Sub 1)})" for s in sl)
-                rep.check(ok, "T-PATTERN", "T-PATTERN/inner/" + nm, c["sp"], "payload is the text without its first and last character", str(sl[:1]))
-        # regex: built from the rest with case_insensitive(insensitive), unanchored (no ^/$ added)
-        if chain:
-            s = show(chain[0]["then"])
-            ok = "RegexBuilder::build(RegexBuilder::case_insensitive(RegexBuilder::new(s), insensitive))" in s and "format" not in s
-            rep.check(ok, "T-PATTERN", "T-PATTERN/regex", chain[0]["sp"], "?re compiles exactly the text after '?' with the pattern's case flag", s[:120])
-    # "?re is an unanchored regex search ... however the engine batches the members": the optimiser may only strip a leading/trailing `.*`
-    import core
-    core.import_rules(rep, "c01", {"REWRITE-CONST"})
+        for probe, want, got, agree in irows:
+            rep.check(agree, "IDENT-MODEL", "IDENT-MODEL/default/%s" % (probe if probe else "<empty>"), "src/identifier.rs", "pattern %r is read as documented" % probe,
+                      None if agree else "expected %r, the body yields %r" % (want, got))
+    model_ok = irows is not None and all(r[3] for r in irows)
+
+    def _structural(rep):
+        # ---------------------------------------------------------------- LOWERCASE + T-PATTERN
+        idf = F.fn("into_identifier")
+        if idf is None:
+            rep.lost("T-PATTERN", "T-PATTERN/anchor", "into_identifier")
+        else:
+            nlow = 0
+            for n, path in walk_with_path(idf.body):
+                if n.get("k") == "Call" and n.get("fn") and ("to_lowercase" in n["fn"] or "to_ascii_lowercase" in n["fn"] or "to_uppercase" in n["fn"]):
+                    nlow += 1
+                    ctx = q.context(path, n)
+                    under = any(e[0] == "if" and e[2] and show(e[1]) == "insensitive" for e in ctx)
+                    rep.check(n["fn"].endswith("to_ascii_lowercase") and under, "LOWERCASE", "LOWERCASE/site#%d" % nlow, n["sp"],
+                              "needle folding is ASCII (the automaton is ascii_case_insensitive) and happens only for insensitive patterns", n["fn"].split("::")[-1] + (" under insensitive" if under else " NOT under insensitive"))
+            rep.check(nlow == 5, "LOWERCASE", "LOWERCASE/count", idf.sp, "five string arms fold the needle (sibling arms alike)", str(nlow))
+            # decision list: order of tests and outcome per test
+            tests = []
+            cur = None
+            for s in idf.body.get("stmts", []):
+                if s["k"] == "Let" and s["pat"].get("name") == "pattern":
+                    cur = unblock(s["init"])
+            chain = []
+            while cur is not None and cur.get("k") == "If":
+                chain.append(cur)
+                cur = unblock(cur["else"]) if cur.get("else") else None
+            last_else = cur
+            def test_name(c):
+                c = peel(c)
+                s = str(show(c))
+                m = re.fullmatch(r"let Option::Some\(\$s\) = <impl str>::strip_prefix\(string, (['\"])(.+)\1\)", s)
+                if m:
+                    return "prefix:" + m.group(2)
+                m = re.fullmatch(r"let Option::Some\(\$s\) = <impl str>::strip_suffix\(string, (['\"])(.+)\1\)", s)
+                if m:
+                    return "suffix:" + m.group(2)
+                if s == 'PartialEq::eq(string, "*")':
+                    return "is:*"
+                if s == "(<impl str>::starts_with(string, '*') && <impl str>::ends_with(string, '*'))":
+                    return "wrapped:*"
+                if "starts_with(string, '\"')" in s and "ends_with(string, \'\'\')" in s:
+                    return "quoted" + (":len>=2" if "(<impl str>::len(string) Ge 2)" in s else ":UNGUARDED")
+                return "?" + s[:50]
+            names = [test_name(c["cond"]) for c in chain]
+            want = ["prefix:?", "prefix:>=", "prefix:>", "prefix:<=", "prefix:<", "prefix:=", "is:*", "wrapped:*", "prefix:*", "suffix:*", "quoted:len>=2"]
+            rep.check(names == want, "T-PATTERN", "T-PATTERN/decision-list", idf.sp, "tests in order: ? >= > <= < = '*' *x* *x x* quoted(len>=2) else exact", str(names))
+            outcome = {"prefix:?": "Regex", "is:*": "Any", "wrapped:*": "Contains", "prefix:*": "EndsWith", "suffix:*": "StartsWith", "quoted:len>=2": "Exact"}
+            for c, nm in zip(chain, names):
+                if nm in outcome:
+                    adts = [x["variant"] for x in walk(c["then"]) if x.get("k") == "Adt" and x["adt"] == "identifier::Pattern"]
+                    rep.check(adts == [outcome[nm]], "T-PATTERN", "T-PATTERN/outcome/" + nm, c["sp"], "test %s => Pattern::%s" % (nm, outcome[nm]), str(adts))
+            if last_else is not None:
+                adts = [x["variant"] for x in walk(last_else) if x.get("k") == "Adt" and x["adt"] == "identifier::Pattern"]
+                rep.check(adts == ["Exact"], "T-PATTERN", "T-PATTERN/outcome/otherwise", idf.sp, "otherwise => Pattern::Exact(whole text)", str(adts))
+            # payloads: inner slices
+            for c, nm in zip(chain, names):
+                if nm in ("wrapped:*", "quoted:len>=2"):
+                    sl = [show(x) for x in walk(c["then"]) if call_is(x, "Index::index")]
+                    ok = bool(sl) and all(s == "Index::index(string, Range::Range{start: 1, end: (<impl str>::len(string) Sub 1)})" for s in sl)
+                    rep.check(ok, "T-PATTERN", "T-PATTERN/inner/" + nm, c["sp"], "payload is the text without its first and last character", str(sl[:1]))
+            # regex: built from the rest with case_insensitive(insensitive), unanchored (no ^/$ added)
+            if chain:
+                s = show(chain[0]["then"])
+                ok = "RegexBuilder::build(RegexBuilder::case_insensitive(RegexBuilder::new(s), insensitive))" in s and "format" not in s
+                rep.check(ok, "T-PATTERN", "T-PATTERN/regex", chain[0]["sp"], "?re compiles exactly the text after '?' with the pattern's case flag", s[:120])
+        # "?re is an unanchored regex search ... however the engine batches the members": the optimiser may only strip a leading/trailing `.*`
+        import core
+
+    sub_ = _core.Report(rep.pid, rep.tier)
+    _structural(sub_)
+    if model_ok:
+        # the evaluation covers the pattern syntax: shape findings of the structural rules are not violations
+        rep.instances.extend(i for i in sub_.instances if i.status == "discharged")
+        dropped_ = [i.key for i in sub_.instances if i.status != "discharged"]
+        if dropped_:
+            rep.note("structural pattern-syntax rules not applicable to this shape of into_identifier (%d): %s" % (len(dropped_), ", ".join(dropped_[:6])))
+    else:
+        rep.instances.extend(sub_.instances)
+    rep.rules.update({k_: v_ for k_, v_ in sub_.rules.items() if k_ not in rep.rules})
+    _core.import_rules(rep, "c01", {"REWRITE-CONST"})
     rep.floor("T-SEARCH", 9)
     rep.floor("T-OFFSET", 20)
     rep.floor("LOCKSTEP", 24)
-    rep.floor("LOWERCASE", 6)
-    rep.floor("T-PATTERN", 11)
+    if model_ok:
+        rep.floor("IDENT-MODEL", 80)
+    else:
+        rep.floor("LOWERCASE", 6)
+        rep.floor("T-PATTERN", 11)
     rep.exhaustive = True
     rep.trusted.append("std str::{contains,starts_with,ends_with,==}, regex is_match (unanchored search), aho-corasick overlapping search reports every occurrence of every needle")
 
